@@ -272,6 +272,10 @@ func runPatchWL(e *Env) {
 	type stream struct {
 		Docs    []pDoc
 		Invalid bool
+		// syntactic fault: the line Syn inserted at document boundary SynPos (0..len(Docs)),
+		// or, for "truncate", the last byte of the JSON text cut off (a partially written file)
+		Syn    string
+		SynPos int
 	}
 	var streams []stream
 	nstreams := 2 + wl.Choose(4)
@@ -290,7 +294,21 @@ func runPatchWL(e *Env) {
 				st.Docs = append(st.Docs, genDoc())
 			}
 		}
+		if wl.Bias(1, 5) {
+			st.Syn = []string{"}", "]", "{", "[", ",", "\"", "}{", "truncate", "}", "]"}[wl.Choose(10)]
+			st.SynPos = wl.Choose(n + 1)
+		}
 		streams = append(streams, st)
+	}
+	// invalidFor: is the stream, in the given form, invalid as a whole?
+	invalidFor := func(st stream, yaml bool) bool {
+		if st.Invalid {
+			return true
+		}
+		if st.Syn == "" {
+			return false
+		}
+		return st.Syn != "truncate" || !yaml
 	}
 	render := func(st stream, ns string, yaml bool) string {
 		var parts []string
@@ -303,10 +321,26 @@ func runPatchWL(e *Env) {
 				parts = append(parts, canonJSON(m))
 			}
 		}
+		if st.Syn != "" && st.Syn != "truncate" {
+			if yaml {
+				// a line of its own inside (or before) a document
+				if st.SynPos == 0 {
+					parts[0] = st.Syn + "\n" + parts[0]
+				} else {
+					parts[st.SynPos-1] += st.Syn + "\n"
+				}
+			} else {
+				parts = append(parts[:st.SynPos:st.SynPos], append([]string{st.Syn}, parts[st.SynPos:]...)...)
+			}
+		}
 		if yaml {
 			return strings.Join(parts, "---\n")
 		}
-		return strings.Join(parts, "\n")
+		txt := strings.Join(parts, "\n")
+		if st.Syn == "truncate" {
+			txt = txt[:len(txt)-1]
+		}
+		return txt
 	}
 	type run struct {
 		Exec   *Exec
@@ -368,6 +402,8 @@ func runPatchWL(e *Env) {
 	if err == nil && o.BootErr == nil && len(e.S.Panics) == 0 {
 		initial := queue.DefaultInitialDelayOnFailedTask
 		var twin []pWrite
+		twinValid := false
+		formsDiverged := false
 		for i, r := range runs {
 			if r.Retry || r.Stream < 0 {
 				continue
@@ -388,13 +424,25 @@ func runPatchWL(e *Env) {
 			st := streams[r.Stream]
 			desc := fmt.Sprintf("execution #%d (%s, namespace %s) wrote %q", r.Exec.N, map[bool]string{false: "JSON", true: "YAML"}[r.YAML], r.NS, r.Exec.Patch)
 			failedObserved := next != nil && next.Start-r.Exec.End >= initial-time.Second // back-off before the retry
-			if st.Invalid {
+			if invalidFor(st, r.YAML) {
 				simrt.Count("probe:stream-with-invalid-document")
+				sfx := ""
+				if !st.Invalid {
+					simrt.Count("probe:stream-with-syntax-fault")
+					sfx = ":syntax-fault"
+				}
 				if len(got) > 0 {
-					e.Viol("C13", "P1", "invalid-stream-partly-applied", "%s: a document is invalid, yet the API server saw writes %v", desc, got)
+					e.Viol("C13", "P1", "invalid-stream-partly-applied"+sfx, "%s: a document is invalid, yet the API server saw writes %v", desc, got)
 				}
 				if next != nil && !failedObserved {
-					e.Viol("C13", "P1", "invalid-stream-not-failed", "%s: a document is invalid but the execution did not fail (next execution after %v)", desc, next.Start-r.Exec.End)
+					e.Viol("C13", "P1", "invalid-stream-not-failed"+sfx, "%s: a document is invalid but the execution did not fail (next execution after %v)", desc, next.Start-r.Exec.End)
+				}
+				if !r.YAML {
+					twin = nil
+					twinValid = false
+				}
+				if st.Syn == "truncate" {
+					formsDiverged = true // the two namespaces no longer hold the same state
 				}
 				continue
 			}
@@ -425,11 +473,12 @@ func runPatchWL(e *Env) {
 				e.Viol("C13", "P3", "failure-status", "%s: an operation reports an error=%v, execution failed=%v", desc, anyErr, failedObserved)
 			}
 			if r.YAML {
-				if fmt.Sprint(got) != fmt.Sprint(twin) {
+				if twinValid && !formsDiverged && fmt.Sprint(got) != fmt.Sprint(twin) {
 					e.Viol("C13", "P4", "json-yaml-differ", "the same documents as JSON caused %v, as YAML %v (%s)", twin, got, desc)
 				}
 			} else {
 				twin = got
+				twinValid = true
 			}
 		}
 	}
